@@ -123,7 +123,7 @@ def semantics(case, res, tags):
                 vios.append(dict(sig="value:scale:variable", tags=tags, detail="coordinate %d moves %s[%d,%d] by %g, declared scale %g" % (i, key, r, c, got, want)))
                 break
     # (c) starting point in physical units equals the guesses
-    qi = nlp.read(nlp.x0, extra=ex)
+    qi = nlp.read(nlp.x0, extra=nlp.extra0)
     want = {"x": 0.8, "u": -0.3, "vg": 0.6, "vc": 0.45}
     chk = [("U", want["u"]), ("vg", want["vg"]), ("vc", want["vc"])]
     if d["method"] != "SS":
